@@ -51,4 +51,23 @@ MUTANTS = [
                         parser.register_dependent(parser_name, cmd_parser)""", """                    if p in parser._dependent_parsers:
                         if parser_name not in parser._dependent_parsers:
                             parser.register_dependent(parser_name, cmd_parser)""")]},
+    # forms of the default-command test and of the _propagate guard (R19e by model evaluation, R19b by polarity)
+    {"id": "c19-n-nested-not-in", "expect": "silent", "edits": [(F, "            first_arg = args[0] if args else None\n            if all(\n                first_arg not in choices\n                for choices in [['-h', '--help'], self.command_parsers]\n            ):\n                args.insert(0, self.default_command)\n", """            first_arg = args[0] if args else None
+            if first_arg not in ('-h', '--help'):
+                if first_arg not in self.command_parsers:
+                    args.insert(0, self.default_command)
+""")]},
+    {"id": "c19-n-empty-args-first", "expect": "silent", "edits": [(F, "            first_arg = args[0] if args else None\n            if all(\n                first_arg not in choices\n                for choices in [['-h', '--help'], self.command_parsers]\n            ):\n                args.insert(0, self.default_command)\n", """            if not args or (args[0] not in ['-h', '--help'] and args[0] not in self.command_parsers):
+                args.insert(0, self.default_command)
+""")]},
+    {"id": "c19-default-index-error", "expect": "fire", "edits": [(F, "            first_arg = args[0] if args else None\n            if all(\n                first_arg not in choices\n                for choices in [['-h', '--help'], self.command_parsers]\n            ):\n                args.insert(0, self.default_command)\n", """            first_arg = args[0]
+            if first_arg not in ['-h', '--help'] and first_arg not in self.command_parsers:
+                args.insert(0, self.default_command)
+""")], "note": "IndexError for an empty argument vector"},
+    {"id": "c19-default-not-for-empty", "expect": "fire", "edits": [(F, "            first_arg = args[0] if args else None\n            if all(\n                first_arg not in choices\n                for choices in [['-h', '--help'], self.command_parsers]\n            ):\n                args.insert(0, self.default_command)\n", """            if args and args[0] not in ['-h', '--help'] and args[0] not in self.command_parsers:
+                args.insert(0, self.default_command)
+""")], "note": "an empty argument vector no longer runs the default command"},
+    {"id": "c19-default-appended", "expect": "fire", "edits": [(F, "                args.insert(0, self.default_command)", "                args.append(self.default_command)")]},
+    {"id": "c19-n-propagate-is-not-false", "expect": "silent", "edits": [(F, "        if propagate:\n", "        if propagate is not False:\n")]},
+    {"id": "c19-propagate-inverted", "expect": "fire", "edits": [(F, "        if propagate:\n", "        if propagate is False:\n")]},
 ]
